@@ -109,6 +109,13 @@ func ruleCSVRows(c *core.Ctx, ruleNames, ruleNums string) {
 						} else {
 							fields[fmt.Sprintf("field %d: number %s", i, fs)] = true
 						}
+					case v.Op == "call:strconv.FormatFloat" && len(v.Args) == 4:
+						// FormatFloat(x, 'f', N, 64) is the %.Nf rendering
+						if v.Args[1].Key() == "c:102" && intConst(v.Args[2]) >= 0 && intConst(v.Args[2]) < 1<<30 {
+							fields[fmt.Sprintf("field %d: number FormatFloat 'f' %d", i, intConst(v.Args[2]))] = true
+						} else {
+							badNums = append(badNums, fmt.Sprintf("field %d is %s: not a fixed-precision 'f' rendering", i, v.Key()))
+						}
 					default:
 						// a name or number passed through further code
 						if strings.Contains(v.Key(), "fmt.Sprintf") {
